@@ -249,7 +249,7 @@ Proof.
       * rewrite D4 in Hz. inversion Hz. subst z. exists t, ti. split; auto. now rewrite <- Edef.
       * exists t0, z. rewrite <- (D3 t0 Hn0). auto.
     + intros k _. now rewrite D2.
-    + intros k [(y & H1 & H2)|(y & H1 & H2)]; [left; exists y; now rewrite D11|right; exists y; rewrite D8; split; auto; apply in_or_app; now left].
+    + intros k _ [(y & H1 & H2)|(y & H1 & H2)]; [left; exists y; now rewrite D11|right; exists y; rewrite D8; split; auto; apply in_or_app; now left].
 Qed.
 
 (* two task records that differ at most in the wait count *)
@@ -311,7 +311,7 @@ Proof.
     + intros y [H|[(k & H)|(t0 & z & Hz & H)]]; [left; congruence|right; left; exists k; now rewrite <- HR0|right; right].
       destruct (Hbw t0 z Hz) as (w & Hw & _ & _ & _ & _ & _ & Hd). exists t0, w. split; auto. now rewrite <- Hd.
     + intros k _. now rewrite HR0.
-    + intros k [(y & H1 & H2)|(y & H1 & H2)]; [left; exists y; now rewrite Hts|right; exists y; now rewrite Hi].
+    + intros k _ [(y & H1 & H2)|(y & H1 & H2)]; [left; exists y; now rewrite Hts|right; exists y; now rewrite Hi].
 Qed.
 
 Lemma BInv_step_fininreq root x s : Inv rules ctx0 s -> BInv root x s -> nf (step_fininreq rules s) -> BInv root x (step_fininreq rules s).
